@@ -154,7 +154,10 @@ static void run_case(Rng &r)
     // usually a full NRPN parameter number first; otherwise data-entry messages must be ignored until one was selected
     bool preselect = r.chance(0.7);
     if(!preselect) count("nrpn.history_without_initial_select");
-    if(preselect) for(int cc : {99, 98}) { int v = (int)r.range(0, 127); mgr->handleMidi(0, cc, v); g_hist += fmt(" midi(0,%d,%d)", cc, v); if(cc == 99) { m.parhi = v; } else m.parlo = v; m.valhi = m.vallo = -1; }
+    // (NRPN numbers often fall into the range of the plain controller ids in use: 0..5 and 128..133)
+    bool low_nrpn = r.chance(0.4);
+    if(low_nrpn) count("nrpn.number_in_cc_id_range");
+    if(preselect) for(int cc : {99, 98}) { int v = low_nrpn ? (cc == 99 ? (int)r.below(2) : (int)r.range(1, 5)) : (int)r.range(0, 127); mgr->handleMidi(0, cc, v); g_hist += fmt(" midi(0,%d,%d)", cc, v); if(cc == 99) { m.parhi = v; } else m.parlo = v; m.valhi = m.vallo = -1; }
     g_out.clear();
     for(int o = 0; o < ops && !g_failed; ++o) {
         size_t from = g_out.size();
@@ -241,7 +244,7 @@ static void run_case(Rng &r)
             }
         } else if(r.chance(0.12)) {
             // (re)select half of the NRPN parameter number: clears the value halves, emits nothing
-            int cc = r.chance(0.5) ? 99 : 98, v = (int)r.range(0, 127);
+            int cc = r.chance(0.5) ? 99 : 98, v = low_nrpn ? (cc == 99 ? (int)r.below(2) : (int)r.range(1, 5)) : (int)r.range(0, 127);
             g_hist += fmt(" midi(0,%d,%d)", cc, v);
             mgr->handleMidi(0, cc, v);
             if(cc == 99) m.parhi = v; else m.parlo = v;
